@@ -17,7 +17,7 @@ LifecycleOK == (Finished(Ev.life) \/ (Ev.m \in DBMethods /\ Ev.life = "closed"))
 
 TNext ==
   /\ l <= Len(TLog)
-  /\ Ev.m \in Methods /\ Len(Ev.args) = Len(Sig[Ev.m])
+  /\ Ev.m \in Methods /\ (Ev.m # "Seq" => Len(Ev.args) = Len(Sig[Ev.m]))
   /\ Returned /\ LifecycleOK
   /\ l' = l + 1 /\ UNCHANGED out
 
